@@ -213,33 +213,70 @@ func (P *Prog) externalMods(com *ssa.CallCommon, key string) []string {
 	return sortedKeys(out)
 }
 
-func (P *Prog) instrMods(ins ssa.Instruction) []string {
+// allocRoot returns the allocation instruction an address or reference value is rooted at
+// (through field/index/conversion chains), or nil.
+func allocRoot(v ssa.Value) ssa.Instruction {
+	for {
+		switch x := v.(type) {
+		case *ssa.FieldAddr:
+			v = x.X
+		case *ssa.IndexAddr:
+			v = x.X
+		case *ssa.ChangeType:
+			v = x.X
+		case *ssa.Alloc:
+			return x
+		case *ssa.MakeSlice:
+			return x
+		case *ssa.MakeMap:
+			return x
+		default:
+			return nil
+		}
+	}
+}
+
+// instrMods names the heaps an instruction may write. Writes that only initialise an object
+// allocated inside the scope (fresh objects are invisible to the context: the context's heap is
+// unconstrained at unallocated references) are not modifications.
+// storeRoot: for a store/map update, the allocation its target is rooted at (or nil).
+func storeRoot(ins ssa.Instruction) ssa.Instruction {
 	switch x := ins.(type) {
 	case *ssa.Store:
+		return allocRoot(x.Addr)
+	case *ssa.MapUpdate:
+		return allocRoot(x.Map)
+	}
+	return nil
+}
+
+func (P *Prog) instrMods(ins ssa.Instruction, inScope func(*ssa.BasicBlock) bool) []string {
+	fresh := func(v ssa.Value) bool {
+		r := allocRoot(v)
+		return r != nil && inScope(r.Block())
+	}
+	switch x := ins.(type) {
+	case *ssa.Store:
+		if fresh(x.Addr) {
+			return nil
+		}
 		return staticHeaps(x.Addr)
 	case *ssa.MapUpdate:
+		if fresh(x.Map) {
+			return nil
+		}
 		d, v := regMap(types.Unalias(x.Map.Type()).Underlying().(*types.Map))
 		return []string{d, v}
 	case *ssa.Alloc, *ssa.MakeMap, *ssa.MakeSlice:
-		out := []string{"$next"}
-		switch y := x.(type) {
-		case *ssa.Alloc:
-			out = append(out, pointeeHeaps(y.Type().(*types.Pointer).Elem())...)
-		case *ssa.MakeMap:
-			d, _ := regMap(types.Unalias(y.Type()).Underlying().(*types.Map))
-			out = append(out, d)
-		case *ssa.MakeSlice:
-			out = append(out, regArr(types.Unalias(y.Type()).Underlying().(*types.Slice).Elem()))
-		}
-		return out
+		return []string{"$next"}
 	case *ssa.Convert:
 		if scratch.sortOf(x.X.Type()) == "Str" && scratch.sortOf(x.Type()) == "Slice" {
-			return []string{"$next", regArr(types.Typ[types.Uint8])}
+			return []string{"$next"}
 		}
 	case *ssa.Slice:
 		if pt, ok := types.Unalias(x.X.Type()).Underlying().(*types.Pointer); ok && isInterior(x.X) {
-			if at, ok := types.Unalias(pt.Elem()).Underlying().(*types.Array); ok {
-				return []string{"$next", regArr(at.Elem())}
+			if _, ok := types.Unalias(pt.Elem()).Underlying().(*types.Array); ok {
+				return []string{"$next"}
 			}
 		}
 	case *ssa.Next:
@@ -264,9 +301,7 @@ func (P *Prog) callMods(com *ssa.CallCommon) []string {
 	if b, ok := com.Value.(*ssa.Builtin); ok && !com.IsInvoke() {
 		switch b.Name() {
 		case "append":
-			if st, ok := types.Unalias(com.Args[0].Type()).Underlying().(*types.Slice); ok {
-				return []string{"$next", regArr(st.Elem())}
-			}
+			return []string{"$next"}
 		case "copy":
 			if st, ok := types.Unalias(com.Args[0].Type()).Underlying().(*types.Slice); ok {
 				return []string{regArr(st.Elem())}
@@ -329,7 +364,7 @@ func (P *Prog) computeModsets() {
 	P.modsets = map[*ssa.Function]map[string]bool{}
 	var fns []*ssa.Function
 	for _, fn := range P.Funcs {
-		if len(fn.Blocks) > 0 {
+		if len(fn.Blocks) > 0 && fn.Name() != "init" && !strings.HasPrefix(fn.Name(), "init#") {
 			fns = append(fns, fn)
 			P.modsets[fn] = map[string]bool{}
 		}
@@ -358,7 +393,7 @@ func (P *Prog) computeModsets() {
 				case *ssa.Call, *ssa.Defer, *ssa.Go:
 					continue
 				}
-				for _, h := range P.instrMods(ins) {
+				for _, h := range P.instrMods(ins, func(*ssa.BasicBlock) bool { return true }) {
 					if !strings.HasPrefix(h, "$") {
 						allWritten[h] = true
 					}
@@ -372,7 +407,7 @@ func (P *Prog) computeModsets() {
 			m := P.modsets[fn]
 			for _, b := range fn.Blocks {
 				for _, ins := range b.Instrs {
-					for _, h := range P.instrMods(ins) {
+					for _, h := range P.instrMods(ins, func(*ssa.BasicBlock) bool { return true }) {
 						if strings.HasPrefix(h, "$visited") || h == "$next" {
 							continue
 						}
